@@ -1364,6 +1364,46 @@ class Run:
             self.check_add_cascade(go, before_members)
         return "%d.opts %s" % (g["label"], what)
 
+    def op_o_bounce(self, a1, a2):
+        """C37, from the many-to-one side of the dict-based pair G.opts / O.g while the owner's collection is NOT loaded: the member is
+        taken away and put back with no flush in between (a net-zero change queued on an unloaded collection), then the collection is
+        read for the first time: it must hold what the rows say, the member included, and both sides must agree"""
+        sess = self.session
+        if sess.new or sess.dirty or sess.deleted:
+            return "skip"
+        e = self.pick(a1, lambda e: e["cls"] == "O" and OS.state_of(e["obj"]) == "persistent" and self.in_session(e["obj"]))
+        if e is None:
+            return "skip"
+        o = e["obj"]
+        with sess.no_autoflush:
+            g = o.g
+            if g is None or OS.state_of(g) != "persistent" or not self.in_session(g):
+                return "skip"
+            if OS.loaded(g, "opts")[0]:
+                sess.expire(g, ["opts"])
+            how = a2 % 3
+            if how == 0:
+                o.g = None
+                o.g = g
+            elif how == 1:
+                del o.g
+                o.g = g
+            else:
+                o.g = g            # assignment of the value it already has
+            d = g.opts
+            now = self.probe()
+            cols = self.U["tables"]["o"]
+            want = sorted(row[cols.index("key")] for row in now["o"].values() if row[cols.index("g_id")] == OS.pk_of(g))
+            if sorted(d) != want or d.get(o.key) is not o:
+                self.V("C37", "member_lost_from_unloaded_collection", "O.g was taken away and put back (variant %d) while G.opts was not loaded; "
+                       "read afterwards the collection has keys %s, the rows say %s, the member is %s"
+                       % (how, sorted(d), want, "there" if d.get(o.key) is o else "missing"))
+            if o.g is not g:
+                self.V("C37", "backref_out_of_sync", "O.g does not refer to the owner it was assigned (after o_bounce)")
+        self.prev_tables = now
+        self.bump("probe:bounce_on_unloaded_dict_collection")
+        return "%d bounce%d" % (e["label"], how)
+
     def op_q_ops(self, a1, a2):
         """unidirectional delete-orphan one-to-many Q.rs"""
         C = self.U["classes"]
